@@ -153,11 +153,13 @@ type c13Cfg struct {
 	relisten   bool   // listener 0's address was listened on and closed before; the stale handle is closed again
 	parent     string // "" = no WithContext; "alive" = WithContext(parent), parent outlives Shutdown; "ended" = the parent context ends right before Shutdown is called
 	panicInact bool   // the application's inactive handler fails (panics) on every channel
+	idle       bool   // every pipeline starts with a read-idle and a write-idle handler (long periods: they never fire)
+	syncStall  bool   // channels are synchronous-write channels and one client channel has a write stalled inside its transport when Shutdown runs
 }
 
 func (g c13Cfg) String() string {
-	return fmt.Sprintf("L=%d preInject=%d preConnect=%d concInject=%d concConnect=%d closeSome=%v lclose=%d gate=%s until=%s lateAsync=%v relisten=%v acceptErr=%v failWrite=%v wrap=%v parentContext=%q inactiveHandlerPanics=%v",
-		g.listeners, g.preInject, g.preConnect, g.concInject, g.concConn, g.closeSome, g.lclose, g.gate, g.until, g.lateAsync, g.relisten, g.acceptErr, g.failWrite, g.wrap != nil, g.parent, g.panicInact)
+	return fmt.Sprintf("L=%d preInject=%d preConnect=%d concInject=%d concConnect=%d closeSome=%v lclose=%d gate=%s until=%s lateAsync=%v relisten=%v acceptErr=%v failWrite=%v wrap=%v parentContext=%q inactiveHandlerPanics=%v idleHandlers=%v syncChannelsWithStalledWrite=%v",
+		g.listeners, g.preInject, g.preConnect, g.concInject, g.concConn, g.closeSome, g.lclose, g.gate, g.until, g.lateAsync, g.relisten, g.acceptErr, g.failWrite, g.wrap != nil, g.parent, g.panicInact, g.idle, g.syncStall)
 }
 
 var c13Gates = []string{"none", "loop-start", "in-listen", "before-accept", "child-init", "active", "client-init", "activate-during-closeall", "handshake-read-in-active", "panic-in-active", "late-activation-handshake-read"}
@@ -195,6 +197,8 @@ func runC13(c *core.Ctx) {
 			failWrite:  rng.Intn(4) == 0,
 			parent:     []string{"", "", "alive", "ended"}[rng.Intn(4)],
 			panicInact: rng.Intn(5) == 0,
+			idle:       rng.Intn(3) == 0,
+			syncStall:  rng.Intn(8) == 0,
 		}
 		if rng.Intn(4) == 0 {
 			cfg.lclose = rng.Intn(cfg.listeners)
@@ -284,6 +288,9 @@ func c13Trial(c *core.Ctx, id string, cfg c13Cfg) {
 			probesMu.Lock()
 			probes = append(probes, p)
 			probesMu.Unlock()
+			if cfg.idle {
+				ch.Pipeline().AddLast(netty.ReadIdleHandler(time.Minute), netty.WriteIdleHandler(time.Minute))
+			}
 			ch.Pipeline().AddLast(p, &mon.ParkReader{})
 			if (cfg.gate == "child-init" && kind == "child") || (cfg.gate == "client-init" && kind == "client") {
 				wait()
@@ -310,6 +317,9 @@ func c13Trial(c *core.Ctx, id string, cfg c13Cfg) {
 	}
 	bopts := []netty.Option{netty.WithTransport(f), netty.WithExecutor(ex),
 		netty.WithChildInitializer(mkInit("child")), netty.WithClientInitializer(mkInit("client"))}
+	if cfg.syncStall {
+		bopts = append(bopts, netty.WithChannel(netty.NewChannel()))
+	}
 	parentCancel := func() {}
 	if cfg.parent != "" {
 		var pctx context.Context
@@ -453,6 +463,47 @@ func c13Trial(c *core.Ctx, id string, cfg c13Cfg) {
 		}
 		chMu.Unlock()
 	}
+	stalled := false
+	if cfg.syncStall {
+		// a synchronous write stalls inside the transport (peer not reading): only closing the transport ends it
+		chMu.Lock()
+		var victim netty.Channel
+		if n := len(chans); n > 0 && !cfg.closeSome && !cfg.failWrite {
+			victim = chans[n-1]
+		}
+		chMu.Unlock()
+		if victim != nil {
+			_, ts := f.Snapshot()
+			entered := make(chan struct{}, 1)
+			for _, t := range ts {
+				t := t
+				t.OnOp = func(kind string, phase int) {
+					if (kind == mon.OpWrite || kind == mon.OpWritev) && phase == 0 {
+						select {
+						case entered <- struct{}{}:
+						default:
+						}
+						select {
+						case <-t.Closed():
+						case <-time.After(40 * time.Second):
+						}
+					}
+				}
+			}
+			bg.Add(1)
+			go func() {
+				defer bg.Done()
+				defer func() { recover() }()
+				victim.Write1([]byte("stalled"))
+			}()
+			select {
+			case <-entered:
+				stalled = true
+				c.Count("shutdown_with_stalled_sync_write", 1)
+			case <-time.After(2 * time.Second):
+			}
+		}
+	}
 	if cfg.lclose >= 0 && cfg.lclose != late {
 		ls[cfg.lclose].explicit = true
 		ls[cfg.lclose].l.Close()
@@ -486,7 +537,9 @@ func c13Trial(c *core.Ctx, id string, cfg c13Cfg) {
 		c.Count("shutdown_after_parent_context_ended", 1)
 	}
 	s.Mark("shutdownCalled")
-	func() {
+	shutdownDone := make(chan struct{})
+	go func() {
+		defer close(shutdownDone)
 		defer func() {
 			if r := recover(); r != nil {
 				c.Count("shutdown_panicked", 1) // judged by what it left behind
@@ -494,6 +547,24 @@ func c13Trial(c *core.Ctx, id string, cfg c13Cfg) {
 		}()
 		bs.Shutdown()
 	}()
+	select {
+	case <-shutdownDone:
+	case <-time.After(20 * time.Second):
+		as, ts := f.Snapshot()
+		if stalled && mon.ParkedIn("(*channel).Close", "sync.Mutex.Lock", "semacquire") > 0 {
+			c.Violation("C13:shutdown-never-returns-while-a-sync-write-is-stalled", id, "Shutdown did not return within 20 s: a channel's Close is parked on a lock while a synchronous write of that channel is stalled inside its transport, which only that Close would end; the remaining channels are never closed ["+cfg.String()+"]", nil)
+		} else {
+			c.Inconclusive(id, "watchdog: Shutdown did not return: "+cfg.String())
+		}
+		s.ReleaseAll()
+		for _, a := range as {
+			a.Close()
+		}
+		for _, t := range ts {
+			t.Close()
+		}
+		return
+	}
 	s.Mark("shutdownReturned")
 	s.ReleaseAll()
 	bg.Wait()
